@@ -215,7 +215,31 @@ where
         if let TyKind::Adt(adt_id, _) = ty {
             self.record(*adt_id);
         }
-        self.ws.db().impl_provided_for(auto_trait_id, ty)
+        let provided = self.ws.db().impl_provided_for(auto_trait_id, ty);
+        if provided {
+            // The explicit impls that suppress the automatic impl are part of
+            // what the answer depends on, but the database only reports that
+            // they exist. Find them among the trait's local impls by the
+            // constructor of their self type, so that the logged program keeps
+            // suppressing the automatic impl.
+            let interner = self.ws.db().interner();
+            for impl_id in self.ws.db().local_impls_to_coherence_check(auto_trait_id) {
+                let impl_datum = self.ws.db().impl_datum(impl_id);
+                let self_ty = impl_datum
+                    .binders
+                    .skip_binders()
+                    .trait_ref
+                    .self_type_parameter(interner);
+                let same_constructor = match (self_ty.kind(interner), ty) {
+                    (TyKind::Adt(a, _), TyKind::Adt(b, _)) => a == b,
+                    (a, b) => std::mem::discriminant(a) == std::mem::discriminant(b),
+                };
+                if same_constructor {
+                    self.record(impl_id);
+                }
+            }
+        }
+        provided
     }
 
     fn well_known_trait_id(
